@@ -54,6 +54,11 @@ def closed_form(case):
         g_ = gen.growth(zz_, St["profiles"], kx_, ky_)
         s_ = float(rng.uniform(750.0, 1500.0)) / max(g_, 1e-9)
         St = dict(St, z=zz_[0] + (zz_ - zz_[0]) * s_, G=0.0)
+    zeroed = {1: 1, 3: 0, 6: 2, 7: 3}.get(case["idx"] % 10)
+    if zeroed is not None:
+        # one coefficient identically zero at every node: wind along a grid axis (u or v exactly 0), no diffusion along one axis (Kx or
+        # Ky exactly 0) - the closed form needs none of them; only one at a time, so that no component other than the mean loses its decay
+        St = dict(St, profiles=tuple(p * 0.0 if i == zeroed else p for i, p in enumerate(St["profiles"])))
     nx, ny, dx, dy = St["nx"], St["ny"], St["dx"], St["dy"]
     z = St["z"]
     nz = len(z)
@@ -104,7 +109,8 @@ def closed_form(case):
         resid["beyond_cutoff"] = e
         if not e <= 1e-12:
             viol.append({"what": "component_beyond_cutoff_survives_truncation", "rel": e, "setup": desc})
-    b = {f"a:modes:{St['mode_class']}": 1, "a:footprint" if fp else "a:dispersion": 1, f"a:levels:{lkind}": 1}
+    b = {f"a:modes:{St['mode_class']}": 1, "a:footprint" if fp else "a:dispersion": 1, f"a:levels:{lkind}": 1,
+         "a:zero_coefficient:" + ("none" if zeroed is None else "u v Kx Ky".split()[zeroed]): 1}
     return {"evals": 2 * nl, "nontrivial": nm >= 8, "sig": f"a|{case['idx']}", "buckets": b, "resid": resid,
             "counters": {"closed_form_modes_compared": nm * nl * 2, "solver_calls": 1}, "violations": viol,
             "sample": {"setup": desc, "levels": lv, "footprint": fp, "bg": bg, "modes_compared": nm}}
